@@ -37,29 +37,30 @@ theorem streaming_eq_whole (start : Srcloc) (chunks : List Bytes) :
 example : (feedChunks (Partial.new (Srcloc.start inputFile)) [[40, 97], [32], [], [98, 41]]).bind Partial.finalize
     = parse [40, 97, 32, 98, 41] := streaming_eq_whole _ _
 
-/-! ## the invariant, for every text (no exclusion; the two defect shapes are admitted) -/
+/-! ## the invariant, for every text (no exclusion; the one defect shape is admitted) -/
 
 /-- every form the reader returns is well located in the sense of `ReaderSpec.Good`, with
-    the defect shapes `hashPrim` / `hashLone` admitted (`d = true`). -/
+    the defect shape `hashLone` admitted (`d = true`). -/
 theorem parse_good (t : Bytes) (fs : List LRich) (h : parse t = .ok fs) :
     ∀ x ∈ fs, Good t true false x 0 t.length :=
   (ReaderLemmas.parse_post t).1 fs h
 
-/-- on forms showing neither defect shape, the judgement holds strictly. -/
+/-- on forms not showing the defect shape, the judgement holds strictly. -/
 theorem parse_good_strict (t : Bytes) (fs : List LRich) (h : parse t = .ok fs) :
     ∀ x ∈ fs, Clean x → Good t false false x 0 t.length :=
   fun x hx hc => (parse_good t fs h x hx).strict hc
 
 /-! ## (2) leaf locations are exact
 
-    Full statement (FALSE for the unchanged code, see the two counterexamples):
+    Full statement (FALSE for the code as it is, see the counterexample):
       ∀ t fs x y, TabFree t → parse t = .ok fs → x ∈ fs → y ∈ x.nodes →
         y.isCons = false → y.isNil = false → LeafExact t y                                   -/
 
 /-- slicing the text at the location of any atom / integer / string leaf gives exactly the
     token the leaf was built from (`LeafExact`: the range is non-empty and inside the text,
     and the leaf is what `make_atom` / the quote reader yields on precisely those bytes,
-    quotes included) — for every form without a `*prims*` location or a lone-`#` atom. -/
+    quotes included; for `#name` the range is `name` and the byte before it is `#`) — for
+    every form without a lone-`#` atom. -/
 theorem leaf_loc_exact_partial (t : Bytes) (ht : TabFree t) (fs : List LRich)
     (hp : parse t = .ok fs) (x : LRich) (hx : x ∈ fs) (hc : Clean x)
     (y : LRich) (hy : y ∈ x.nodes) (h1 : y.isCons = false) (h2 : y.isNil = false) :
@@ -72,38 +73,22 @@ theorem leaf_loc_exact_partial (t : Bytes) (ht : TabFree t) (fs : List LRich)
     · rw [h2] at h; cases h
 
 /-- a `Nil` node is either the token `()` / a zero literal located exactly, or the
-    terminator of a list carrying a location inside that list's delimiters. -/
-theorem nil_loc_partial (t : Bytes) (ht : TabFree t) (fs : List LRich)
-    (hp : parse t = .ok fs) (x : LRich) (hx : x ∈ fs) (hc : Clean x)
-    (y : LRich) (hy : y ∈ x.nodes) (_h2 : y.isNil = true) :
+    terminator of a list carrying a location inside that list's delimiters (no exclusion). -/
+theorem nil_loc (t : Bytes) (ht : TabFree t) (fs : List LRich)
+    (hp : parse t = .ok fs) (x : LRich) (hx : x ∈ fs)
+    (y : LRich) (hy : y ∈ x.nodes) (h2 : y.isNil = true) :
     LeafExact t y ∨ ListWithin t y := by
-  have g := parse_good_strict t fs hp x hx hc
-  rcases ReaderLemmas.good_nodes g (fun h => by cases h) y hy with h | h
+  have g := parse_good t fs hp x hx
+  rcases ReaderLemmas.good_nodes_list g (fun h => by cases h) y hy (Or.inr h2) with h | h
   · exact Or.inl (ReaderLemmas.leafExact_of_ok ht h)
   · exact Or.inr (ReaderLemmas.listWithin_of_ok ht h)
-
-/-- what the reader returns for `(#a 1 2)` -/
-def hashOpWitness : LRich :=
-  .cons primLoc (.int primLoc 2)
-    (.cons ⟨0, 1, 1, some (1, 6)⟩ (.int ⟨0, 1, 5, none⟩ 1)
-      (.cons ⟨0, 1, 1, some (1, 8)⟩ (.int ⟨0, 1, 7, none⟩ 2) (.nil ⟨0, 1, 1, some (1, 8)⟩)))
 
 /-- what the reader returns for `(# a)` -/
 def loneHashWitness : LRich :=
   .cons ⟨0, 1, 1, some (1, 4)⟩ (.atom ⟨0, 1, 3, none⟩ [35])
     (.cons ⟨0, 1, 1, some (1, 5)⟩ (.atom ⟨0, 1, 4, none⟩ [97]) (.nil ⟨0, 1, 1, some (1, 5)⟩))
 
-/-- DEFECT 1 (`loc:hash-op-prims-location`): in `(#a 1 2)` the operator leaf is
-    `Integer(*prims*(1):1, 2)`: its location names another file. -/
-theorem leaf_loc_exact_counterexample_prims :
-    parse [40, 35, 97, 32, 49, 32, 50, 41] = .ok [hashOpWitness] ∧
-    LRich.int primLoc 2 ∈ hashOpWitness.nodes ∧
-    ¬ LeafExact [40, 35, 97, 32, 49, 32, 50, 41] (.int primLoc 2) := by
-  refine ⟨by decide +kernel, by decide +kernel, ?_⟩
-  intro h
-  exact absurd h.1.1 (by decide)
-
-/-- DEFECT 2 (`loc:lone-hash-shifted`): in `(# a)` the atom `#` is located at the blank
+/-- DEFECT (`loc:lone-hash-shifted`): in `(# a)` the atom `#` is located at the blank
     after it, so the addressed bytes are `" "`, which is not a token of that atom. -/
 theorem leaf_loc_exact_counterexample_lone_hash :
     parse [40, 35, 32, 97, 41] = .ok [loneHashWitness] ∧
@@ -116,40 +101,46 @@ theorem leaf_loc_exact_counterexample_lone_hash :
     decide +kernel
   have tk := h.2
   rw [e] at tk
-  rcases tk with ⟨_, h⟩ | ⟨_, _, _, h⟩ | ⟨q, raw, body, _, _, _, h⟩ | ⟨h, _⟩
+  rcases tk with ⟨_, h⟩ | ⟨_, _, _, h⟩ | ⟨_, _, n, _, h⟩ | ⟨q, raw, body, _, _, _, h⟩ | ⟨h, _⟩
   · exact absurd h (by decide +kernel)
   · exact absurd h (by decide +kernel)
   · cases h
+  · cases h
   · exact absurd h (by decide)
 
-/-! ## (3) list locations lie inside the list's parentheses
+/-- what the reader returns for `(#a 1 2)`: the operator is the prim table's integer 2,
+    located at the `a` of the token. -/
+def hashOpWitness : LRich :=
+  .cons ⟨0, 1, 1, some (1, 4)⟩ (.int ⟨0, 1, 3, none⟩ 2)
+    (.cons ⟨0, 1, 1, some (1, 6)⟩ (.int ⟨0, 1, 5, none⟩ 1)
+      (.cons ⟨0, 1, 1, some (1, 8)⟩ (.int ⟨0, 1, 7, none⟩ 2) (.nil ⟨0, 1, 1, some (1, 8)⟩)))
 
-    Full statement (FALSE for the unchanged code because of DEFECT 1):
-      ∀ t fs x y, TabFree t → parse t = .ok fs → x ∈ fs → y ∈ x.nodes → y.isCons = true →
-        ListWithin t y                                                                        -/
+-- `#op` tokens (formerly located in `*prims*`) are covered by `leaf_loc_exact_partial`:
+example : parse [40, 35, 97, 32, 49, 32, 50, 41] = .ok [hashOpWitness] ∧ Clean hashOpWitness ∧
+    spanOf [40, 35, 97, 32, 49, 32, 50, 41] ⟨0, 1, 3, none⟩ = (2, 3) ∧
+    spanOf [40, 35, 97, 32, 49, 32, 50, 41] hashOpWitness.loc = (0, 3) := by
+  refine ⟨by decide +kernel, by decide +kernel, by decide +kernel, by decide +kernel⟩
+example : LeafExact [40, 35, 97, 32, 49, 32, 50, 41] (.int ⟨0, 1, 3, none⟩ 2) :=
+  leaf_loc_exact_partial _ (by decide) _ (by decide +kernel : parse _ = .ok [hashOpWitness])
+    hashOpWitness List.mem_cons_self (by decide +kernel) _ (by decide +kernel) rfl rfl
+
+/-! ## (3) list locations lie inside the list's parentheses (no exclusion) -/
 
 /-- for every cons node there are list delimiters `b < c` (`(` or `#(` at `b`, `)` at `c`)
     such that the byte ranges denoted by the node's location and by the location of every
     node below it are non-empty and lie in `[b, c]`. -/
-theorem list_loc_within_partial (t : Bytes) (ht : TabFree t) (fs : List LRich)
-    (hp : parse t = .ok fs) (x : LRich) (hx : x ∈ fs) (hc : Clean x)
+theorem list_loc_within (t : Bytes) (ht : TabFree t) (fs : List LRich)
+    (hp : parse t = .ok fs) (x : LRich) (hx : x ∈ fs)
     (y : LRich) (hy : y ∈ x.nodes) (h1 : y.isCons = true) :
     ListWithin t y := by
-  have g := parse_good_strict t fs hp x hx hc
-  rcases ReaderLemmas.good_nodes g (fun h => by cases h) y hy with h | h
+  have g := parse_good t fs hp x hx
+  rcases ReaderLemmas.good_nodes_list g (fun h => by cases h) y hy (Or.inl h1) with h | h
   · rw [h.1] at h1; cases h1
   · exact ReaderLemmas.listWithin_of_ok ht h
 
-/-- DEFECT 1 propagates: `ext` ignores a location from another file, so the list
-    `(#a 1 2)` itself is located at `*prims*(1):1`. -/
-theorem list_loc_within_counterexample :
-    parse [40, 35, 97, 32, 49, 32, 50, 41] = .ok [hashOpWitness] ∧
-    hashOpWitness.isCons = true ∧ hashOpWitness.loc = primLoc ∧
-    ¬ ListWithin [40, 35, 97, 32, 49, 32, 50, 41] hashOpWitness := by
-  refine ⟨by decide +kernel, rfl, rfl, ?_⟩
-  rintro ⟨b, c, _, _, _, h⟩
-  have := (h hashOpWitness (by decide +kernel)).1
-  exact absurd this (by decide)
+example : ListWithin [40, 35, 97, 32, 49, 32, 50, 41] hashOpWitness :=
+  list_loc_within _ (by decide) _ (by decide +kernel : parse _ = .ok [hashOpWitness])
+    hashOpWitness List.mem_cons_self _ (by decide +kernel) rfl
 
 /-! ## (4) error locations lie within the text (no exclusion) -/
 
